@@ -1,0 +1,113 @@
+//go:build verif
+
+package syntax
+
+import (
+	"bytes"
+	"io"
+	"unicode/utf8"
+)
+
+// VerifLexer drives the unexported byte-source primitives of a [Parser] that is fed by an
+// arbitrary [io.Reader].  It exists only for the /verif checks (C06, C07, C09, C10) and is
+// compiled only with the "verif" build tag.  It adds no behaviour: every method is a direct call
+// of the primitive of the same name, except StopAtHere, which is a transcription of the stop-word
+// test inside Parser.next (that test cannot be reached without lexing a whole token).
+type VerifLexer struct{ p *Parser }
+
+// VerifLexState is a snapshot of the byte-source fields of the parser.
+type VerifLexState struct {
+	Bsp, Len         int    // p.bsp, len(p.bs)
+	Ahead            []byte // copy of p.bs[p.bsp:] when in range (at most 8 bytes), else nil
+	Offs, Line, Col  int64
+	R                rune
+	W                int
+	ReadEOF, ReadErr bool // p.readEOF, p.readErr != nil
+	LitNil           bool // p.litBs == nil
+	Lit              []byte
+	OpenBquotes      int
+	OpenBquoteDbls   int
+	LastBquoteEsc    int
+	Err              string // "" when p.err == nil
+	ErrText          string // ParseError.Text when p.err is a ParseError
+	ErrOffs          uint   // ParseError.Pos unpacked
+	ErrLine, ErrCol  uint
+}
+
+// VerifRuneEOF and VerifEscNewl are the sentinel runes returned by Parser.rune.
+const (
+	VerifRuneEOF = runeEOF
+	VerifEscNewl = escNewl
+	VerifBufSize = bufSize
+)
+
+// NewVerifLexer returns a parser after reset() with src = r; no rune has been read yet.
+func NewVerifLexer(r io.Reader, lang LangVariant, stopAt string) *VerifLexer {
+	p := NewParser(Variant(lang))
+	p.reset()
+	p.f = &File{}
+	p.src = r
+	if stopAt != "" {
+		p.stopAt = []byte(stopAt)
+	}
+	return &VerifLexer{p: p}
+}
+
+func (v *VerifLexer) Rune() (rune, int)      { r := v.p.rune(); return r, v.p.w }
+func (v *VerifLexer) Peek() byte             { return v.p.peek() }
+func (v *VerifLexer) PeekTwo() (byte, byte)  { return v.p.peekTwo() }
+func (v *VerifLexer) ZshNumRange() bool      { return v.p.zshNumRange() }
+func (v *VerifLexer) NewLit(r rune)          { v.p.newLit(r) }
+func (v *VerifLexer) EndLit() string         { return v.p.endLit() }
+func (v *VerifLexer) Fill() int              { return v.p.fill() }
+func (v *VerifLexer) LitAppend(b ...byte)    { v.p.litBs = append(v.p.litBs, b...) } // as lexer.go does for "\\\n"
+func (v *VerifLexer) LitDrop()               { v.p.litBs = nil }
+func (v *VerifLexer) ErrPass(msg string)     { v.p.posErr(v.p.pos, "%s", msg) }
+func (v *VerifLexer) SetBquotes(open, d int) { v.p.openBquotes, v.p.openBquoteDbls = open, d }
+
+// StopAtHere is the stop-word test of Parser.next for the rune r that was just read.
+func (v *VerifLexer) StopAtHere(r rune) bool {
+	p := v.p
+	w := uint(utf8.RuneLen(r))
+	if p.bsp >= w && bytes.HasPrefix(p.bs[p.bsp-w:], p.stopAt) {
+		p.r = runeEOF
+		p.w = 1
+		p.tok = _EOF
+		return true
+	}
+	return false
+}
+
+// NextPos returns p.nextPos() unpacked, and the unclamped offset p.offs+p.bsp-p.w.
+func (v *VerifLexer) NextPos() (offs, line, col uint, raw int64) {
+	pos := v.p.nextPos()
+	return pos.Offset(), pos.Line(), pos.Col(), v.p.offs + int64(v.p.bsp) - int64(v.p.w)
+}
+
+func (v *VerifLexer) State() VerifLexState {
+	p := v.p
+	s := VerifLexState{
+		Bsp: int(p.bsp), Len: len(p.bs),
+		Offs: p.offs, Line: p.line, Col: p.col,
+		R: p.r, W: p.w,
+		ReadEOF: p.readEOF, ReadErr: p.readErr != nil,
+		LitNil: p.litBs == nil, Lit: bytes.Clone(p.litBs),
+		OpenBquotes: p.openBquotes, OpenBquoteDbls: p.openBquoteDbls,
+		LastBquoteEsc: p.lastBquoteEsc,
+	}
+	if int(p.bsp) <= len(p.bs) {
+		a := p.bs[p.bsp:]
+		if len(a) > 8 {
+			a = a[:8]
+		}
+		s.Ahead = bytes.Clone(a)
+	}
+	if p.err != nil {
+		s.Err = p.err.Error()
+		if pe, ok := p.err.(ParseError); ok {
+			s.ErrText = pe.Text
+			s.ErrOffs, s.ErrLine, s.ErrCol = pe.Pos.Offset(), pe.Pos.Line(), pe.Pos.Col()
+		}
+	}
+	return s
+}
